@@ -299,10 +299,15 @@ func (a *Allocation) ListChannelBindings() []*ChannelBind {
 }
 
 // Refresh updates the allocations lifetime.
-func (a *Allocation) Refresh(lifetime time.Duration) {
-	if !a.lifetimeTimer.Reset(lifetime) {
-		a.log.Errorf("Failed to reset allocation timer for %v", a.fiveTuple)
+func (a *Allocation) Refresh(lifetime time.Duration) bool {
+	if a.lifetimeTimer.Reset(lifetime) {
+		return true
 	}
+	// The timer has already fired (or was stopped): the allocation is being deleted.
+	// Reset re-arms even a fired timer; the deletion under way stays the last one.
+	a.lifetimeTimer.Stop()
+
+	return false
 }
 
 // AddressFamily returns the address family of the allocation (RFC 6156).
